@@ -12,7 +12,8 @@
 (*   op    baseStage.execute(node): the node's operator runs (plan tree of  *)
 (*         the stage, walked in pre-order; the stage body)                 *)
 (*   kids  baseStage.execute(node): the loop over the node's children      *)
-(*   next  completeHandle: NextStages(), one executeStage per child        *)
+(*   next  completeHandle: NextStages(), one executeStage per child, then  *)
+(*         completeStage(stage, nil) as the LAST statement of the callback  *)
 (*   fin   completeStage, part under the mutex (state, first error)        *)
 (*   unl   completeStage, the mutex is released                            *)
 (*   dec   completeStage, pending.Dec()                                    *)
@@ -37,10 +38,27 @@
 (*                    the stage's own lock section, before pending.Dec():  *)
 (*                    a stage that fails between the sample and the        *)
 (*                    decrement of the last stage is not reported)         *)
+(* A panic while a stage (whose own plan succeeded) plans / registers its    *)
+(* next stages, i.e. inside the complete-callback (npanic[s]: -1 none,       *)
+(* 0 NextStages() itself panics, k >= 1 the Identifier() of the k-th next    *)
+(* stage panics inside stateMachine.executeStage, before that stage's own     *)
+(* recover exists): the next stages registered before it stay registered and *)
+(* keep running, the panic unwinds the callback to the recover of the stage   *)
+(* (executeStage's for an inline stage, the pool's -> errHandle for a pooled *)
+(* one) which completes the stage ONCE, with the error.                      *)
+(*   SuccessOnlyAtEnd  completeStage(stage, nil) is the last statement of    *)
+(*                    the complete-callback (FALSE: it is deferred at the top *)
+(*                    of the callback and therefore also runs while a panic   *)
+(*                    unwinds it: the panicking stage is completed as a       *)
+(*                    success first and with the error afterwards)            *)
+(*   RegisterAtomic   stateMachine.executeStage has no effect when the        *)
+(*                    stage's Identifier() panics (FALSE: pending is already  *)
+(*                    incremented and the stage recorded -- nobody ever       *)
+(*                    completes it)                                           *)
 (***************************************************************************)
-EXTENDS Naturals, Sequences, FiniteSets, TLC
+EXTENDS Integers, Sequences, FiniteSets, TLC
 
-CONSTANTS KeepFirstError, RecoverPerStage, FirstErrorWins, ErrReadAtCompletion
+CONSTANTS KeepFirstError, RecoverPerStage, FirstErrorWins, ErrReadAtCompletion, SuccessOnlyAtEnd, RegisterAtomic
 
 VARIABLES children,   \* [Stage -> Seq(Stage)]   the stage tree (NextStages)
           root,
@@ -49,38 +67,41 @@ VARIABLES children,   \* [Stage -> Seq(Stage)]   the stage tree (NextStages)
           pkids,      \* [PNode -> Seq(PNode)]  children of the plan nodes (all stages, names unique)
           pout,       \* [PNode -> {"none","ok","err","panic","ign"}]  the node's operator
           proot,      \* [Stage -> PNode]       root of the stage's plan tree
+          npanic,     \* [Stage -> -1 .. n]     panic while planning (0) / registering the k-th of the next stages
           stacks,     \* [Thread -> Seq(frame)]
           pending, registered, done, completed, cbCount, cbErr,
           errSeen,    \* first error remembered by the state machine
           anyErr,     \* ghost: some executed stage failed or panicked
           opLog,      \* ghost: [Stage -> Seq(PNode)] operators executed, in order
           failedSt,   \* ghost: stages one of whose operators failed or panicked
-          lateOp      \* ghost: an operator ran in a stage that had already failed
+          lateOp,     \* ghost: an operator ran in a stage that had already failed
+          finTwice    \* ghost: completeStage marked a stage that was already marked
 
-vars == <<children, root, async, outcome, pkids, pout, proot, stacks, pending, registered, done,
-          completed, cbCount, cbErr, errSeen, anyErr, opLog, failedSt, lateOp>>
+vars == <<children, root, async, outcome, pkids, pout, proot, npanic, stacks, pending, registered, done,
+          completed, cbCount, cbErr, errSeen, anyErr, opLog, failedSt, lateOp, finTwice>>
 
 Stage == DOMAIN children
 Thread == Stage \cup {"main"}
 PNode == DOMAIN pkids
 
 \* pl = [kids |-> [PNode -> Seq(PNode)], out |-> [PNode -> operator], root |-> [Stage -> PNode]]
-InitWith(ch, rt, as, oc, pl) ==
-  /\ children = ch /\ root = rt /\ async = as /\ outcome = oc
+NoNextPanic(ch) == [s \in DOMAIN ch |-> -1]
+InitWith(ch, rt, as, oc, pl, np) ==
+  /\ children = ch /\ root = rt /\ async = as /\ outcome = oc /\ npanic = np
   /\ pkids = pl.kids /\ pout = pl.out /\ proot = pl.root
   /\ stacks = [t \in (DOMAIN ch) \cup {"main"} |->
                  IF t = "main" THEN << [k |-> "chk", s |-> rt] >> ELSE << >>]
   /\ pending = 0 /\ registered = {} /\ done = {}
   /\ completed = FALSE /\ cbCount = 0 /\ cbErr = FALSE
   /\ errSeen = FALSE /\ anyErr = FALSE
-  /\ opLog = [s \in DOMAIN ch |-> << >>] /\ failedSt = {} /\ lateOp = FALSE
+  /\ opLog = [s \in DOMAIN ch |-> << >>] /\ failedSt = {} /\ lateOp = FALSE /\ finTwice = FALSE
 
 Top(t) == stacks[t][Len(stacks[t])]
 Pop(t) == SubSeq(stacks[t], 1, Len(stacks[t]) - 1)
 Has(t, kind) == t \in DOMAIN stacks /\ stacks[t] # << >> /\ Top(t).k = kind
 Replace(t, f) == [stacks EXCEPT ![t] = Append(Pop(t), f)]
 
-Static == UNCHANGED <<children, root, async, outcome, pkids, pout, proot>>
+Static == UNCHANGED <<children, root, async, outcome, pkids, pout, proot, npanic>>
 TreeGhosts == <<opLog, failedSt, lateOp>>
 
 \* frame of completeStage(s, err); q: the stage is completed by executeStage's recover (not by one
@@ -97,17 +118,7 @@ Chk(t) ==
   /\ Has(t, "chk")
   /\ stacks' = IF completed THEN [stacks EXCEPT ![t] = Pop(t)]
                             ELSE Replace(t, [k |-> "reg", s |-> Top(t).s])
-  /\ UNCHANGED <<pending, registered, done, completed, cbCount, cbErr, errSeen, anyErr, TreeGhosts>>
-  /\ Static
-
-\* stateMachine.executeStage: pending++, the stage is recorded
-Register(t) ==
-  /\ Has(t, "reg")
-  /\ LET s == Top(t).s IN
-     /\ pending' = pending + 1
-     /\ registered' = registered \cup {s}
-     /\ stacks' = Replace(t, [k |-> "plan", s |-> s])
-  /\ UNCHANGED <<done, completed, cbCount, cbErr, errSeen, anyErr, TreeGhosts>>
+  /\ UNCHANGED <<pending, registered, done, completed, cbCount, cbErr, errSeen, anyErr, TreeGhosts, finTwice>>
   /\ Static
 
 \* a panic on thread t while stage s runs on it; below: the frames of t under those of stage s
@@ -123,6 +134,36 @@ PanicStack(t, s, below) ==
          \* goroutine's own stage (= t); frames above it are abandoned
          [stacks EXCEPT ![t] = << Fin(t, TRUE, FALSE) >>]
 
+\* a panic on thread t inside the complete-callback of stage s (planning / registering its next stages)
+NextPanicStack(t, s, below) ==
+  LET ps == PanicStack(t, s, below) IN
+  IF SuccessOnlyAtEnd THEN ps
+  ELSE \* the deferred completeStage(s, nil) runs first, while the panic unwinds the callback; then the recover's
+       [ps EXCEPT ![t] = Append(@, Fin(s, FALSE, TRUE))]
+
+\* the stage is the k-th next stage of a stage p with npanic[p] = k: its Identifier() panics
+IdentPanics(c) == \E p \in Stage : /\ npanic[p] >= 1 /\ npanic[p] <= Len(children[p])
+                                   /\ children[p][npanic[p]] = c
+ParentOf(c) == CHOOSE p \in Stage : \E i \in 1..Len(children[p]) : children[p][i] = c
+
+\* stateMachine.executeStage: pending++, the stage is recorded (Identifier() is evaluated for the stage's stats)
+Register(t) ==
+  /\ Has(t, "reg")
+  /\ LET s == Top(t).s IN
+     IF IdentPanics(s)
+       THEN \* Identifier() panics: the caller is the complete-callback of the parent (its "next" frame is right below),
+            \* the recover of the stage itself is not installed yet: the panic unwinds the parent's callback
+            /\ pending' = IF RegisterAtomic THEN pending ELSE pending + 1
+            /\ registered' = IF RegisterAtomic THEN registered ELSE registered \cup {s}
+            /\ anyErr' = TRUE
+            /\ stacks' = NextPanicStack(t, ParentOf(s), SubSeq(stacks[t], 1, Len(stacks[t]) - 2))
+       ELSE /\ pending' = pending + 1
+            /\ registered' = registered \cup {s}
+            /\ stacks' = Replace(t, [k |-> "plan", s |-> s])
+            /\ UNCHANGED anyErr
+  /\ UNCHANGED <<done, completed, cbCount, cbErr, errSeen, TreeGhosts, finTwice>>
+  /\ Static
+
 \* stage.Plan() is evaluated on the CALLER's goroutine (argument of stage.Execute), then
 \* stage.Execute runs the body (baseStage.execute of the plan's root) inline or submits it to the pool
 Plan(t) ==
@@ -135,7 +176,7 @@ Plan(t) ==
             /\ stacks' = IF async[s]
                             THEN [stacks EXCEPT ![t] = Pop(t), ![s] = << [k |-> "op", s |-> s, n |-> proot[s]] >>]
                             ELSE Replace(t, [k |-> "op", s |-> s, n |-> proot[s]])
-  /\ UNCHANGED <<pending, registered, done, completed, cbCount, cbErr, errSeen, TreeGhosts>>
+  /\ UNCHANGED <<pending, registered, done, completed, cbCount, cbErr, errSeen, TreeGhosts, finTwice>>
   /\ Static
 
 \* ------------------------------------------------ baseStage.execute(node): the plan tree walk
@@ -175,7 +216,7 @@ OpRun(t) ==
                     [] o = "ign" -> RetStack(t, FALSE)     \* ErrNotFound on an IgnoreNotFound node: nil, children skipped
                     [] o = "err" -> RetStack(t, TRUE)
                     [] o = "panic" -> PanicStack(t, s, Unwound(t))
-  /\ UNCHANGED <<pending, registered, done, completed, cbCount, cbErr, errSeen>>
+  /\ UNCHANGED <<pending, registered, done, completed, cbCount, cbErr, errSeen, finTwice>>
   /\ Static
 
 \* the loop over node.Children()
@@ -186,18 +227,25 @@ Kids(t) ==
                  THEN [stacks EXCEPT ![t] = Append(Append(Pop(t), [f EXCEPT !.i = f.i + 1]),
                                                    [k |-> "op", s |-> f.s, n |-> pkids[f.n][f.i]])]
                  ELSE RetStack(t, f.e)
-  /\ UNCHANGED <<pending, registered, done, completed, cbCount, cbErr, errSeen, anyErr, TreeGhosts>>
+  /\ UNCHANGED <<pending, registered, done, completed, cbCount, cbErr, errSeen, anyErr, TreeGhosts, finTwice>>
   /\ Static
+
+\* NextStages() of the stage on top of t panics (it is called once, before the first next stage is registered)
+NextPanics(t) == Has(t, "next") /\ Top(t).i = 1 /\ npanic[Top(t).s] = 0
 
 \* completeHandle: plan the children one by one, then complete the stage itself
 Next1(t) ==
   /\ Has(t, "next")
   /\ LET s == Top(t).s  i == Top(t).i IN
-     stacks' = IF i <= Len(children[s])
+     IF NextPanics(t)
+       THEN /\ anyErr' = TRUE
+            /\ stacks' = NextPanicStack(t, s, Pop(t))
+       ELSE /\ UNCHANGED anyErr
+            /\ stacks' = IF i <= Len(children[s])
                  THEN [stacks EXCEPT ![t] = Append(Append(Pop(t), [k |-> "next", s |-> s, i |-> i + 1]),
                                                    [k |-> "chk", s |-> children[s][i]])]
                  ELSE Replace(t, Fin(s, FALSE, FALSE))
-  /\ UNCHANGED <<pending, registered, done, completed, cbCount, cbErr, errSeen, anyErr, TreeGhosts>>
+  /\ UNCHANGED <<pending, registered, done, completed, cbCount, cbErr, errSeen, TreeGhosts, finTwice>>
   /\ Static
 
 \* completeStage under the mutex: stage state, first error.  es: the first error as this call sees it inside
@@ -206,6 +254,7 @@ FinMark(t) ==
   /\ Has(t, "fin")
   /\ LET s == Top(t).s  e == Top(t).e IN
      /\ done' = done \cup {s}
+     /\ finTwice' = (finTwice \/ s \in done)
      /\ errSeen' = (errSeen \/ e)
      /\ stacks' = Replace(t, [k |-> "unl", s |-> s, e |-> e, q |-> Top(t).q,
                               es |-> IF ErrReadAtCompletion THEN FALSE ELSE (errSeen \/ e)])
@@ -216,7 +265,7 @@ FinMark(t) ==
 FinUnlock(t) ==
   /\ Has(t, "unl")
   /\ stacks' = Replace(t, [Top(t) EXCEPT !.k = "dec"])
-  /\ UNCHANGED <<pending, registered, done, completed, cbCount, cbErr, errSeen, anyErr, TreeGhosts>>
+  /\ UNCHANGED <<pending, registered, done, completed, cbCount, cbErr, errSeen, anyErr, TreeGhosts, finTwice>>
   /\ Static
 
 \* completeStage after the mutex: pending.Dec(); the call that reads zero goes on to complete the pipeline
@@ -225,7 +274,7 @@ FinDec(t) ==
   /\ pending' = pending - 1
   /\ stacks' = Replace(t, IF pending - 1 = 0 THEN [Top(t) EXCEPT !.k = "cmp"]
                                              ELSE [k |-> "end", s |-> Top(t).s, q |-> Top(t).q])
-  /\ UNCHANGED <<registered, done, completed, cbCount, cbErr, errSeen, anyErr, TreeGhosts>>
+  /\ UNCHANGED <<registered, done, completed, cbCount, cbErr, errSeen, anyErr, TreeGhosts, finTwice>>
   /\ Static
 
 \* completeStage, pending.Dec() == 0: `lock; err = sm.err; unlock; sm.complete(err)`
@@ -234,13 +283,13 @@ FinComplete(t) ==
   /\ LET f == Top(t) IN
      /\ Complete(IF ~KeepFirstError THEN f.e ELSE IF ErrReadAtCompletion THEN errSeen ELSE f.es)
      /\ stacks' = Replace(t, [k |-> "end", s |-> f.s, q |-> f.q])
-  /\ UNCHANGED <<pending, registered, done, errSeen, anyErr, TreeGhosts>>
+  /\ UNCHANGED <<pending, registered, done, errSeen, anyErr, TreeGhosts, finTwice>>
   /\ Static
 
 FinEnd(t) ==
   /\ Has(t, "end")
   /\ stacks' = [stacks EXCEPT ![t] = Pop(t)]
-  /\ UNCHANGED <<pending, registered, done, completed, cbCount, cbErr, errSeen, anyErr, TreeGhosts>>
+  /\ UNCHANGED <<pending, registered, done, completed, cbCount, cbErr, errSeen, anyErr, TreeGhosts, finTwice>>
   /\ Static
 
 \* Pipeline.Execute's deferred recover
@@ -248,7 +297,7 @@ MainComplete ==
   /\ Has("main", "mainc")
   /\ Complete(TRUE)
   /\ stacks' = [stacks EXCEPT !["main"] = << >>]
-  /\ UNCHANGED <<pending, registered, done, errSeen, anyErr, TreeGhosts>>
+  /\ UNCHANGED <<pending, registered, done, errSeen, anyErr, TreeGhosts, finTwice>>
   /\ Static
 
 Step(t) == Chk(t) \/ Register(t) \/ Plan(t) \/ OpRun(t) \/ Kids(t) \/ Next1(t)
@@ -256,7 +305,7 @@ Step(t) == Chk(t) \/ Register(t) \/ Plan(t) \/ OpRun(t) \/ Kids(t) \/ Next1(t)
 Next == (\E t \in Thread : Step(t)) \/ MainComplete
 
 Quiescent == \A t \in Thread : stacks[t] = << >>
-NoPanic == /\ \A s \in Stage : outcome[s] # "planpanic"
+NoPanic == /\ \A s \in Stage : outcome[s] # "planpanic" /\ npanic[s] = -1
            /\ \A n \in PNode : pout[n] # "panic"
 
 \* ---------------------------------------------------------------- C19
@@ -269,6 +318,9 @@ ErrorReported == (Quiescent /\ cbCount = 1 /\ anyErr) => cbErr
 ExactlyOnceAtEnd == Quiescent => cbCount = 1
 PendingSane == RecoverPerStage =>
                  pending = Cardinality(registered \ done) + Cardinality({t \in Thread : Has(t, "unl") \/ Has(t, "dec")})
+\* completeStage marks every stage at most once (a stage is completed by exactly one of: the complete-callback,
+\* the error handler, the recover)
+CompletedOnce == ~finTwice
 Terminates == <>(Quiescent /\ cbCount = 1)
 
 \* ---------------------------------------------------------------- C19, plan tree of a stage
